@@ -61,6 +61,11 @@ func (e *Env) Fail(prop, invariant, trigger, format string, a ...any) {
 	if e.Viol != nil {
 		return
 	}
+	if prop != e.Prop && prop != "C02" {
+		// monitors of other properties ride along for triage only
+		e.St.Probe("other_property_alarm:" + prop + "/" + invariant)
+		return
+	}
 	key := prop + "/" + invariant
 	if trigger != "" {
 		key += "/" + trigger
@@ -174,7 +179,9 @@ func RunOne(o core.RunOpts) (res *core.RunResult) {
 	}
 	if e.Viol == nil {
 		for _, m := range e.Monitors {
-			m.Finish(e)
+			if m.Prop() == e.Prop {
+				m.Finish(e)
+			}
 		}
 	}
 	res.Violation = e.Viol
